@@ -611,6 +611,51 @@ T = {
     needs="a spot order and a perpetual order with the same numeric id pending at the same time; one of them cancelled or executed",
     caught_by="C20.escrow_holds in hist mode",
     history="caught at first run"),
+ "C01-7": dict(
+    change="x/perpetual/keeper/msg_server_close_positions.go ClosePositions: the amm pool is looked up once per pool id and kept in a map for the rest of the Liquidate loop",
+    needs="one MsgClosePositions whose Liquidate list names two positions of one pool: the earlier one really force-closed (the close saves a fresh pool), the later one settling interest on the stale copy (which overwrites the reserve reduction)",
+    caught_by="C01.reserve_eq_held, C01.liquidity_eq_sum in perp-focused histories with frequent batch closes",
+    history="MISSED at first (C01 had no position-focused run and sharp moves with every position named in one message came once in 25 blocks); perp-focused run added to C01, batch closes every 9th block in position-focused histories; caught since"),
+ "C03-7": dict(
+    change="x/amm/types/calc_out_amt_given_in.go CalcOutAmtGivenIn: the fee is taken as a rounded whole amount of the input instead of as a factor",
+    needs="an exact-in swap on a constant-product pool with a fee, input with in*fee fractional below one half (dust: no fee at all)",
+    caught_by="C03.out_le_exact, C03.out_le_exact_one_unit, C03.weighted_within_1e8 in mode c03",
+    history="caught at first run"),
+ "C05-7": dict(
+    change="x/amm/keeper/apply_join_pool_state_change.go ApplyJoinPoolStateChange: a guard clause returns, when no bonus can be paid, before the AfterJoinPool hook",
+    needs="an oracle pool with an accounted pool, weights off target, a single-sided join that improves them with an empty rebalance treasury: the accounted balance is not refreshed and the next single-sided join is priced on a stale TVL",
+    caught_by="C05.pricing_base_is_true_balance (driver C05H) in hist mode",
+    history="caught at first run"),
+ "C06-7": dict(
+    change="x/stablestake/keeper/begin_blocker.go + interest_rate.go: all debts are settled at the epoch boundary, then the parameters read at the top of the begin-blocker are written back",
+    needs="an open debt with interest accrued since its last interaction and an epoch-boundary block (every block with the default epoch length)",
+    caught_by="C06.vault_equation in hist mode",
+    history="caught at first run"),
+ "C08-7": dict(
+    change="x/leveragelp/keeper/msg_server_add_pool.go AddPool: a re-submission of an enabled pool with another leverage cap rebuilds the pool record (LeveragedLpAmount is not carried over)",
+    needs="an enabled pool with open positions and a governance MsgAddPool for the same pool id with a different cap",
+    caught_by="C08.pool_eq_sum in lp-focused histories with leveragelp pool governance (VERIF_GOVLP)",
+    history="MISSED at first (no history sent a pool-lifecycle governance message of leveragelp); govLpShock added (re-submission with another cap, removal); caught since"),
+ "C11-7": dict(
+    change="x/perpetual/keeper/params.go + force_close_long.go / force_close_short.go: a new getter for EnableTakeProfitCustodyLiabilities returns BorrowInterestPaymentEnabled; the forced-close hooks use it",
+    needs="two open positions in one pool, one closed through MsgClosePositions (any list): the accounted pool is refreshed with the take-profit formula",
+    caught_by="C11.nonamm_eq, C11.total_eq in hist mode",
+    history="caught at first run"),
+ "C13-7": dict(
+    change="x/masterchef/keeper/hooks_masterchef.go UpdateUserRewardPending (negative accrual clamped at 0) + x/stablestake/keeper/msg_server_bond.go Bond (AfterBond hooks before the commit)",
+    needs="the stablestake reward pool has a positive accumulator and somebody bonds: the fresh shares are credited the pool's whole history",
+    caught_by="C13.block_credit, C13.solvent in hist mode",
+    history="caught at first run"),
+ "C16-7": dict(
+    change="x/oracle/keeper/price.go SetPrice: the write is skipped when the latest stored price of that asset and source has the same value",
+    needs="the same value fed twice in a row and the first entry's lifetime running out while feeding continues",
+    caught_by="C16.expired_served, C16.newest in mode c16",
+    history="caught at first run"),
+ "C20-7": dict(
+    change="x/tradeshield/keeper/keeper.go GetAssetPriceFromDenomInToDenomOut: the market price of a pair is worked out once per block and stored",
+    needs="two evaluations of one pair in one block with a price feed between them, the second order triggered by the earlier price only",
+    caught_by="C20.trigger in scenario c20-price-moves-between-two-executions (the clause is now judged at the price in force when each request ran)",
+    history="MISSED at first (feeds always came first in a block and the clause was not judged otherwise); the driver replays the block's feeds to know the price each execution request ran under, order-focused histories put feeds between transactions, and a directed scenario has two limit sells with a feed between their execution requests; caught since"),
 }
 
 root = os.path.join(os.path.dirname(os.path.dirname(os.path.abspath(__file__))), "seeded")
